@@ -11,3 +11,4 @@ for c in "$@"; do
   (cd /verif && VERIF_REPO="$W" ./check "$c" --tier quick 2>&1 | grep -E "VIOLATION|detail|KNOWN|tier=|HARNESS|Error" | head -12)
 done
 git -C /repo worktree remove --force "$W"
+(cd /verif && /venv/bin/python harness/gen_tables.py /repo > /dev/null 2>&1)   # leave the generated tables as /repo says
